@@ -7,7 +7,8 @@
  *
  * stdin:   t <ms>   clock := start + ms (forward steps and jumps), then wait for the timer thread to rest
  *          hup      gids_update (conf->gids), as the SIGHUP handler does
- * stdout:  ARM <service> <now_ms> <delay_ms>   for every timer_set_relative made by a service
+ * stdout:  OP <input line>                     before the line is acted on
+ *          ARM <service> <now_ms> <delay_ms>   for every timer_set_relative made by a service
  *          END <now_ms>
  */
 #define _GNU_SOURCE
@@ -27,7 +28,7 @@
 #include "timer.h"
 #include "vtime.h"
 
-#define START_SEC 1700000000L
+#define START_SEC 4000000000L   /* later than any file time on this machine: gids sees /etc/group as unchanged */
 
 #include <signal.h>
 volatile sig_atomic_t got_reconfig = 0;      /* munged.c (not linked: it has main) defines these for job.c */
@@ -64,11 +65,12 @@ int main(void) {
     vnow.tv_sec = START_SEC; vnow.tv_nsec = 0;
     conf = create_conf();
     random_init(NULL);
-    conf->gids = gids_create(conf->gids_update_secs, conf->got_group_stat);
+    conf->gids = gids_create(conf->gids_update_secs, 1);          /* mtime check on: exercises the no-update re-arm path */
     replay_init();
     timer_init();
     if (settle() < 0) { printf("!timer thread did not come to rest after start-up\n"); fflush(stdout); return 1; }
     while (fgets(line, sizeof line, stdin)) {
+        pthread_mutex_lock(&om); printf("OP %s", line); pthread_mutex_unlock(&om);
         if (line[0] == 't') {
             long ms = atol(line + 2);
             ts.tv_sec = START_SEC + ms / 1000; ts.tv_nsec = (ms % 1000) * 1000000L;
